@@ -4,6 +4,7 @@ import (
 	"errors"
 	"fmt"
 	"math/rand"
+	"sort"
 	"strings"
 	"sync/atomic"
 	"time"
@@ -381,7 +382,7 @@ func expect(e *rv.Expr, argLits []rv.Lit, keyLits [][]rv.Lit, envLits []rv.Lit) 
 	}
 	x.outside = ev.ExceptOutside
 	x.steps = ev.Steps
-	if ev.Free && x.err == nil && e.Op != "ModuleToString" {
+	if ev.Free && !rv.IsUnknown(x.err) && e.Op != "ModuleToString" {
 		x.err = &rv.UnknownError{Why: "the body goes through CHOOSE/SelectElement/ToString, whose result TLA+ leaves open"}
 	}
 	return x
@@ -533,6 +534,82 @@ func anySeqFn(ls ...[]rv.Lit) bool {
 	return false
 }
 
+// collapses reports whether some set (or function domain) inside l has fewer elements in TLA+ than in
+// the runtime's representation.
+func collapses(l rv.Lit) bool {
+	switch l.T {
+	case "set":
+		seen := map[string]bool{}
+		distinctRuntime := 0
+		for _, x := range l.Xs {
+			k := litKey(x)
+			if !seen[k] {
+				seen[k] = true
+				distinctRuntime++
+			}
+		}
+		if len(l.V().E) < distinctRuntime {
+			return true
+		}
+	case "fn":
+		seen := map[string]bool{}
+		distinctRuntime := 0
+		for _, x := range l.Xs {
+			k := litKey(x)
+			if !seen[k] {
+				seen[k] = true
+				distinctRuntime++
+			}
+		}
+		if len(l.V().D) < distinctRuntime {
+			return true
+		}
+	}
+	for _, x := range l.Xs {
+		if collapses(x) {
+			return true
+		}
+	}
+	for _, y := range l.Ys {
+		if collapses(y) {
+			return true
+		}
+	}
+	return false
+}
+
+// litKey identifies a literal up to the runtime's own notion of equality (representation kept, sets
+// and function pairs in canonical order).
+func litKey(l rv.Lit) string {
+	switch l.T {
+	case "set":
+		ks := make([]string, len(l.Xs))
+		for i, x := range l.Xs {
+			ks[i] = litKey(x)
+		}
+		sort.Strings(ks)
+		return "{" + strings.Join(ks, ",") + "}"
+	case "tup":
+		ks := make([]string, len(l.Xs))
+		for i, x := range l.Xs {
+			ks[i] = litKey(x)
+		}
+		return "<" + strings.Join(ks, ",") + ">"
+	case "fn":
+		m := map[string]string{}
+		for i := range l.Xs {
+			m[litKey(l.Xs[i])] = litKey(l.Ys[i])
+		}
+		ks := make([]string, 0, len(m))
+		for k, v := range m {
+			ks = append(ks, k+":>"+v)
+		}
+		sort.Strings(ks)
+		return "(" + strings.Join(ks, ",") + ")"
+	}
+	return l.T + ":" + l.TLA()
+}
+
 func uniform(ls []rv.Lit) []tla.Value {
 	out := make([]tla.Value, len(ls))
 	for i, l := range ls {
@@ -546,8 +623,21 @@ func uniform(ls []rv.Lit) []tla.Value {
 // respects the statement, the deviation is the runtime treating <<a, b>> and (1 :> a @@ 2 :> b) as
 // different values.
 func (r *Real) refine(class string, e *rv.Expr, argLits []rv.Lit, keyLits [][]rv.Lit, envLits []rv.Lit, x expectation) string {
-	if class == "panic-not-errtype" || x.err != nil || !anySeqFn(append(keyLits, argLits, envLits)...) {
+	if class == "panic-not-errtype" || !anySeqFn(append(keyLits, argLits, envLits)...) {
 		return class
+	}
+	// When TLC raises, the call is only re-examined if an argument holds the same TLA+ value twice (once as
+	// a tuple, once as a function): such a value only exists because the runtime keeps the two apart.
+	if x.err != nil {
+		any := false
+		for _, ls := range append(keyLits, argLits, envLits) {
+			for _, l := range ls {
+				any = any || collapses(l)
+			}
+		}
+		if !any {
+			return class
+		}
 	}
 	sub := &Real{rng: r.rng, triples: map[string]int{}, noMeta: true}
 	ks := make([][]tla.Value, len(keyLits))
@@ -658,10 +748,39 @@ func (r *Real) RunCase(e *rv.Expr, env []rv.Lit) (end string) {
 			}
 		}
 	}()
+	bad := false
+	e.Walk(func(x *rv.Expr) {
+		if x.Lit != nil && !litInRange(*x.Lit) {
+			bad = true
+		}
+	})
+	for _, l := range env {
+		bad = bad || !litInRange(l)
+	}
+	if bad {
+		return "skipped: literal outside the 32-bit range"
+	}
 	tenv := make([]tla.Value, len(env))
 	for i, l := range env {
 		tenv[i] = rv.ToTLA(l)
 	}
 	r.Eval(e, tenv)
 	return "value"
+}
+
+func litInRange(l rv.Lit) bool {
+	if l.T == "i" && (l.I > rv.MaxInt || l.I < rv.MinInt) {
+		return false
+	}
+	for _, x := range l.Xs {
+		if !litInRange(x) {
+			return false
+		}
+	}
+	for _, y := range l.Ys {
+		if !litInRange(y) {
+			return false
+		}
+	}
+	return true
 }
